@@ -139,6 +139,29 @@ impl Case {
                     let dom = |p: [f32; 3]| -> bool { p.iter().all(|x| x.is_finite() && *x >= 0.0 && *x <= if unit { 1.0 } else { 4.0 }) };
                     correlate_px(&mut px, *seed, Some(&fb), &dom);
                 }
+                if !unit && seed % 5 == 2 {
+                    // sparse outliers: a non-negative image with one to three pixels that have exactly one negative
+                    // component (whole-buffer pre-scans for "any negative value" must look at every lane)
+                    let mut e = Expand(*seed ^ 0x5BA7);
+                    for p in px.iter_mut() {
+                        for c in p.iter_mut() {
+                            *c = c.abs();
+                        }
+                    }
+                    for _ in 0..1 + e.below(3) {
+                        let i = e.below(px.len() as u64) as usize;
+                        let k = e.below(3) as usize;
+                        let small = if e.below(2) == 0 { 0.0 } else { 1e-4 };
+                        let mut q = [small; 3];
+                        q[k] = -(e.range_f64(0.1, 1.0) as f32);
+                        px[i] = q;
+                    }
+                }
+                if seed % 4 == 1 {
+                    let fb = |p: [f32; 3]| -> Option<[f32; 3]> { LinearRgb::new(vec![p], 1, 1).ok().map(|l| Xyb::from(l).data()[0]) };
+                    let dom = |p: [f32; 3]| -> bool { p.iter().all(|x| x.is_finite() && *x >= 0.0 && *x <= if unit { 1.0 } else { 4.0 }) };
+                    correlate_rows(&mut px, self.w, self.h, *seed, &fb, &dom);
+                }
                 if unit && seed % 8 == 5 && px.len() >= 2 {
                     // C05: up to three neighbours whose XYB agrees bit-exactly in one or two channels
                     let mut e = Expand(*seed ^ 0x7A11);
@@ -420,5 +443,5 @@ pub fn replay_c05(v: &Value) -> Result<(), String> {
     check_c05(&Case::from_json(v).ok_or("bad case")?, &mut Stats::new()).map_err(|v| v.message)
 }
 
-pub const RULE_C04: &str = "cases = w x h images (1..40 x 1..12, so pixel counts of every residue) of linear-RGB pixels from 9 strata, a third of the images with related neighbours (equal / partly equal / fed-back pixels), single-pixel and tiny images over-represented (uniform [0,4]^3, near-neutral, near black with log-uniform scale 1e-9..1e-1, greys, single channel, [-1,4]^3 with a negative component, unit cube, R close to G, lattice corners) generated by proptest, plus an enumerated lattice on [0,4]^3 and real-size images (32768 .. 2 M pixels); every in-domain pixel compared with the f64 opsin definition (tol 2e-6); negative pixels whose opsin mixes fall in (-1e-3, 0.05) are converted but not compared (outside the stated domain) and counted; non-trivial = image containing a non-grey pixel; distinct = by hash of (w,h,pixel bits)";
+pub const RULE_C04: &str = "cases = w x h images (1..40 x 1..12, so pixel counts of every residue) of linear-RGB pixels from 9 strata, a third of the images with related neighbours (equal / partly equal / fed-back pixels), a quarter with related rows (a row equal to / mirrored from / the library's result for the row above), a fifth non-negative with one to three sparse pixels that have exactly one negative component, single-pixel and tiny images over-represented (uniform [0,4]^3, near-neutral, near black with log-uniform scale 1e-9..1e-1, greys, single channel, [-1,4]^3 with a negative component, unit cube, R close to G, lattice corners) generated by proptest, plus an enumerated lattice on [0,4]^3 and real-size images (32768 .. 2 M pixels); every in-domain pixel compared with the f64 opsin definition (tol 2e-6); negative pixels whose opsin mixes fall in (-1e-3, 0.05) are converted but not compared (outside the stated domain) and counted; non-trivial = image containing a non-grey pixel; distinct = by hash of (w,h,pixel bits)";
 pub const RULE_C05: &str = "cases = w x h images (1..40 x 1..12) of linear-RGB pixels of [0,1]^3 from 9 strata, a third of the images with related neighbours (equal / partly equal / fed-back pixels), one image in eight with neighbours whose forward transforms agree bit-exactly in one or two XYB channels and differ in the rest (found by inverting the changed XYB value in f64 and tuning by a few ulps), single-pixel and tiny images over-represented (uniform, near-neutral (grey + perturbations of scale 1e-7..1e-3), near black, greys, single channel, R close to G with |R-G| log-uniform 1e-7..1e-2, lattice corners) generated by proptest, plus an enumerated lattice on [0,1]^3 and real-size images (32768 .. 2 M pixels); oracle = LinearRgb -> Xyb -> LinearRgb returns every component within 5e-5, dimensions preserved; non-trivial = image containing a non-grey pixel; distinct = by hash of (w,h,pixel bits)";
